@@ -1734,3 +1734,15 @@ pub mod verif_hooks_poly {
         pol.eval(x)
     }
 }
+
+/// Verification hooks (only with `--cfg yamaquasi_verif`): one polynomial through the real sieve (C20).
+#[cfg(yamaquasi_verif)]
+pub mod verif_hooks_consumer {
+    use super::*;
+
+    /// `siqs_sieve_poly` (root computation, all blocks of the interval, relation extraction)
+    /// for one polynomial, without recycled resources.
+    pub fn vh_sieve_poly(s: &SieveSIQS, a: &A, pol: &Poly) {
+        let _ = siqs_sieve_poly(s, a, pol, None);
+    }
+}
